@@ -241,7 +241,7 @@ class Shapes(SubCheck):
         # transformed segments are the matrix image of it
         base = [(type(x).__name__, pts_of_segment(x)) for x in un]
         obs = [(type(x).__name__, pts_of_segment(x)) for x in tr]
-        S = max(1.0, max(abs(v) for _, pts in base for q in pts for v in af.apply(M, q)))
+        S = max(1e-300, max(abs(v) for _, pts in base for q in pts for v in af.apply(M, q)))
         tol = 1e-9 * S * max(1.0, af.cond(M))
         ok = [k for k, _ in base] == [k for k, _ in obs]
         if ok:
@@ -281,6 +281,33 @@ class Shapes(SubCheck):
                         out.fail("Path(shape.d()) differs from the shape beyond the print precision", list(q), list(p),
                                  kind="d", segkind=type(a).__name__, **tags)
                         return
+        # concatenation entry points: an (empty or not) path plus the shape draws the shape's transformed geometry
+        for nm in ("Path()+shape", "path+=shape"):
+            try:
+                if nm == "Path()+shape":
+                    q = list(abs(svg.Path() + sh))
+                else:
+                    q0 = svg.Path("M-50,-60 L-40,-60")
+                    q0 += sh
+                    q = list(abs(q0))[2:]
+            except Exception as e:  # noqa
+                out.fail("%s raised %s" % (nm, type(e).__name__), None, repr(e), kind="concat", entry=nm, **tags)
+                continue
+            if [type(x).__name__ for x in q] != [type(x).__name__ for x in tr]:
+                out.fail("%s has other segment kinds than the shape" % nm, [type(x).__name__ for x in tr],
+                         [type(x).__name__ for x in q], kind="concat", entry=nm, **tags)
+                continue
+            bad = False
+            for a, b in zip(q, tr):
+                t2 = (2e-5 if type(a).__name__ == "Arc" else 1e-9) * S
+                for pp, qq in zip(pts_of_segment(a), pts_of_segment(b)):
+                    if abs(pp[0] - qq[0]) > t2 or abs(pp[1] - qq[1]) > t2:
+                        out.fail("%s does not draw the shape's (transformed) geometry" % nm, list(qq), list(pp), kind="concat",
+                                 entry=nm, segkind=type(a).__name__, **tags)
+                        bad = True
+                        break
+                if bad:
+                    break
         for transformed in (True, False):
             b1 = sh.bbox(transformed=transformed)
             b2 = P.bbox(transformed=transformed)
